@@ -118,8 +118,8 @@ Inductive cls :=
 | CData           (* other return_data *)
 | CPayment        (* pay_pubkey_full / pay_pubkey_hash / pay_script_hash / segwit *)
 | CEmpty          (* no_script *)
-| CNoMatch        (* ValueError: no template *)
-| CError.         (* struct.error from the tokenizer (or fuel, unreachable) *)
+| CNoMatch        (* ValueError: no template, or a partial PUSHDATA2/4 length at the end *)
+| CError.         (* out of fuel: model artefact, proved unreachable *)
 
 Definition class_of (r : sresult) : cls :=
   match r with
@@ -131,7 +131,6 @@ Definition class_of (r : sresult) : cls :=
       else if is_return_data t then (if is_purchase_data t vs then CPurchase else CData)
       else match t with T_no_script => CEmpty | _ => CPayment end
   | SNoMatch => CNoMatch
-  | SStructError => CError
   | SFuel => CError
   end.
 
